@@ -15,8 +15,8 @@ IMPORTS = ("From Coq Require Import List QArith ZArith String.\n"
 TRUSTED = ["numpy indexing/moveaxis/unique/eye/split are what the list model gives them as meaning (slices = firstn/skipn, "
            "moveaxis of a 2-D array = transpose, unique = sorted duplicate-free list); compared on every run, not assumed",
            "numpy's RNG is not modelled: narma is always called with a user-supplied u",
-           "string labels: Coq's String.leb (byte order) stands for numpy's code-point order on ASCII labels; the closed theorem "
-           "C20_one_hot_Z is for integer labels, the generic one takes the order laws as premises"]
+           "string labels: Coq's String.leb (byte-wise lexicographic, proved a total order) stands for numpy's code-point order; "
+           "scenarios use ASCII labels only"]
 ASSUMPTIONS = ["inputs are small dyadic rationals; float test ratios in the correspondence are dyadic so that time_len*test_size is exact "
                "(the oracle also uses arbitrary float ratios)",
                "map generators: n_timesteps <= 10 and trajectories with |value| <= 1e3 (float64 round-off stays far below the 1e-9 tolerance)",
@@ -58,6 +58,12 @@ def gen_ts(rng, n, forecast, exact_ratio=True, in_range=False):
         if in_range:
             return ["int", rng.randint(1, avail)] if avail >= 1 else None
         return ["int", rng.choice([0, 1, 1, 2, 2, 3, 4, -1, avail, avail + 1, n + 2])]
+    if exact_ratio and rng.random() < 0.35:
+        # ties of Python's round(): time_len * ratio = j + 1/2 exactly (dyadic ratios only)
+        ties = [Fraction(2 * j + 1, 2 * n) for j in range(n)]
+        ties = [t for t in ties if t < 1 and (t.denominator & (t.denominator - 1)) == 0]
+        if ties:
+            return ["ratio", str(rng.choice(ties))]
     if exact_ratio:
         return ["ratio", str(Fraction(rng.randint(0, 15), 16) if rng.random() < 0.6 else Fraction(rng.randint(0, 7), 8))]
     return ["ratio", repr(rng.choice([0.1, 0.2, 0.3, 0.25, 0.5, 0.05, 0.15, 0.45, 0.0, rng.random() * 0.6]))]
@@ -299,14 +305,19 @@ def to_coq(c, o):
         if len(o["shape"]) != 2:
             return "false"
         suffix = "s" if c["typ"] == "str" else "z"
+        if c["form"] == "col":     # (n,1) array: the model squeezes the trailing axis itself
+            return "chk_onehot_col_%s %s %s %s" % (suffix, coqlist([coqlist([lab_coq(v, c["typ"])]) for v in c["labels"]]), qmat(o["enc"]),
+                                                   coqlist([lab_coq(v, c["typ"]) for v in o["classes"]]))
         return "chk_onehot_%s %s %s %s" % (suffix, coqlist([lab_coq(v, c["typ"]) for v in c["labels"]]), qmat(o["enc"]),
                                            coqlist([lab_coq(v, c["typ"]) for v in o["classes"]]))
     if k == "onehot_multi":
         if any(len(s) != 2 for s in o["shapes"]):
             return "false"
         suffix = "s" if c["typ"] == "str" else "z"
-        return "chk_onehot_multi_%s %s %s %s" % (
-            suffix, coqlist([coqlist([lab_coq(v, c["typ"]) for v in s]) for s in c["seqs"]]),
+        # (n,m) and (n,m,1) arrays go through the array branch (unique + reshape), lists of arrays through concatenate/split
+        fn = "chk_onehot_grid_" if c["form"] in ("grid", "grid1") else "chk_onehot_multi_"
+        return "%s %s %s %s" % (
+            fn + suffix, coqlist([coqlist([lab_coq(v, c["typ"]) for v in s]) for s in c["seqs"]]),
             coqlist([qmat(e) for e in o["enc"]]), coqlist([lab_coq(v, c["typ"]) for v in o["classes"]]))
     if k == "logistic_err":
         return "chk_logistic_rejects %s %s %s" % (nat(c["n"]), q(F(c["r"])), q(F(c["x0"]))) if o.get("rejected") else "false"
